@@ -1523,14 +1523,14 @@ class P(Prop):
             return FINDING_AIRE
         if case.get("kind") == "trk" and case.get("orphan") and case.get("names") and "feature values" in (msg or ""):
             return FINDING_ORPHAN
-        if not finite_case(case):
-            return "vw-area-reaches-argmin-sentinel"
-        if all(abs(fv(v)) <= 1e100 for v in case["xs"] + case["ys"]):
-            return None                                      # every area is below 1e201
+        if finite_case(case) and all(abs(fv(v)) <= 1e100 for v in case["xs"] + case["ys"]):
+            return None                                      # every area is a number below 1e201
+        # since b728412 an infinite area is found by ARGMIN (it equals the start value): only a NaN area -- inf - inf, 0 * inf, a NaN
+        # coordinate -- can leave a pass without minimum
         pts = [(float(fv(x)), float(fv(y))) for x, y in zip(case["xs"], case["ys"])]
         for a, b, c in itertools.combinations(pts, 3):
             area = 0.5 * abs((b[0] - a[0]) * (c[1] - b[1]) - (c[0] - b[0]) * (b[1] - a[1]))
-            if not area < float("inf"):
+            if area != area:
                 return "vw-area-reaches-argmin-sentinel"
         return None
 
